@@ -210,3 +210,193 @@ Lemma C05_parsed_prefix_collision_rejected :
   exists ts, lex (Str "PREFIX : <http://weso.es/shapes/>  PREFIX : <http://ex.org/>  :C { :p  @:D ; <http://t>  [:C] }  :D { <http://t>  [:D] }") = Some ts /\
              parses ts = true /\ prefixes_functional ts = false.
 Proof. eexists. split; [vm_compute; reflexivity|]. split; vm_compute; reflexivity. Qed.
+
+(** ** INPUT LEVEL (proofs in Proofs/InputLevel.v): no model-level hypothesis
+
+    [c05_input_ok c g] is a boolean on the run's INPUT (configuration and
+    graph); it is the property's own quantifier:
+    - [valid_input c g] (Proofs/EndToEnd2.v): no typing triple has a literal
+      object; no predicate / datatype / class IRI / typed subject starts with
+      the label sentinel '%'; disjunctions disabled or empty shapes kept; one
+      of the four priority prefixes is free;
+    - [r_shapes_ns c] is the default shapes namespace (else: C05-F1);
+    - the completed namespaces dictionary [full_ns c] is sane ([ns_ok]:
+      namespaces non-empty, of IRIREF characters, holding a character that no
+      local name holds; prefixes PN_PREFIX or empty, pairwise distinct);
+    - every triple is [triple_ok]: its predicate is a plain IRI
+      ([plain_ok ns u]: IRIREF characters, holds ':', does not start with '%',
+      and when a namespace of the dictionary matches ([best_ns]) the remainder
+      is a PN_LOCAL -- else it is printed [<u>]); a literal's datatype is a
+      plain IRI; the object of a typing triple is a class IRI ([class_ok]:
+      plain IRI, does not start with "@", and the label of its shape
+      [%<shapes namespace + local name>] is [label_ok], i.e. the local name is
+      a PN_LOCAL when the label is printed prefixed); with inverse paths the
+      subject of a typing triple (printed as a value of the typing property)
+      is a plain IRI; requested target classes are class IRIs;
+    - the class IRIs (targets, objects of typing triples) have pairwise
+      distinct labels (else: C05-F2). *)
+From Shexer Require Import Model.Tracker Model.Profiler Proofs.Bin64Round Proofs.EndToEnd Proofs.EndToEnd2 Proofs.RunWitness
+     Proofs.InputLevel.
+
+Theorem C05_input_ok_unfold : forall c g, c05_input_ok c g = true ->
+  valid_input c g = true /\ r_shapes_ns c = c_SHAPES_DEFAULT_NAMESPACE /\
+  exists ns, full_ns c = Some ns /\ ns_ok ns = true /\
+    (forall t, In t g -> triple_ok c ns t = true) /\
+    (forall t, In t (match r_targets c with Some l => l | None => [] end) -> class_ok c ns t = true) /\
+    NoDup (map (shape_name (r_shapes_ns c)) (input_classes c g)).
+Proof. exact c05_input_ok_parts. Qed.
+
+Theorem C05_triple_ok_unfold : forall c ns t,
+  triple_ok c ns t =
+  plain_ok ns (tp t) &&
+  match to t with
+  | OL _ dt => plain_ok ns dt
+  | ON o => if str_eqb (tp t) (r_tau c)
+            then class_ok c ns (nid o) && (negb (r_inverse c) || plain_ok ns (nid (ts t)))
+            else true
+  end.
+Proof. reflexivity. Qed.
+
+Theorem C05_class_ok_unfold : forall c ns cls,
+  class_ok c ns cls = plain_ok ns cls && no_at cls && label_ok ns (shape_name (r_shapes_ns c) cls).
+Proof. reflexivity. Qed.
+
+Theorem C05_input_classes_unfold : forall c g,
+  input_classes c g =
+  Counts.uniq_first ((match r_targets c with Some l => l | None => [] end) ++
+    flat_map (fun t => if str_eqb (tp t) (r_tau c) then match to t with ON o => [nid o] | OL _ _ => [] end else []) g).
+Proof. reflexivity. Qed.
+
+(** A1: the references of the class profile resolve, for EVERY graph without
+    the sentinel where a key is taken from, any target mode, any cap, with or
+    without the profile-level cleaning *)
+Theorem C05_profile_refs_closed : forall c g I P C ID,
+  forallb (sentinel_free (r_tau c)) g = true ->
+  track (r_tau c) (mode_of c) (r_cap c) g = inl I ->
+  profile (pcfg_of c) I g = inl (P, C, ID) ->
+  ClosureLemmas.profile_refs_closed P.
+Proof. exact run_profile_refs_closed. Qed.
+Print Assumptions C05_profile_refs_closed.
+
+Theorem C05_run_refs_closed : forall fa c thr g ns shapes,
+  forallb (sentinel_free (r_tau c)) g = true -> r_shapes_ns c = c_SHAPES_DEFAULT_NAMESPACE ->
+  run_shapes fa c thr g = inl (ns, shapes) -> refs_closed shapes.
+Proof. exact run_refs_closed. Qed.
+Print Assumptions C05_run_refs_closed.
+
+(** A3: labels pairwise distinct, from the condition on the input *)
+Theorem C05_run_labels_distinct : forall fa c thr g ns shapes,
+  NoDup (map (shape_name (r_shapes_ns c)) (input_classes c g)) ->
+  run_shapes fa c thr g = inl (ns, shapes) -> NoDup (map sh_name shapes).
+Proof. exact run_labels_NoDup. Qed.
+Print Assumptions C05_run_labels_distinct.
+
+(** A2: the shape list is in the domain of the text-level theorems, for every
+    setting of the options (disjunctions included) *)
+Theorem C05_run_dom : forall fa c thr g ns shapes,
+  c05_input_ok c g = true -> run_shapes fa c thr g = inl (ns, shapes) ->
+  C05_dom (z_of c ns) shapes = true /\ refs_closed shapes /\ NoDup (map sh_name shapes).
+Proof. exact run_C05_dom. Qed.
+Print Assumptions C05_run_dom.
+
+(** the headline: for every input inside [c05_input_ok], every frequency
+    algebra and every threshold, the run succeeds and its text is recognised,
+    well-formed and closed *)
+Theorem C05_run_wellformed : forall c g, c05_input_ok c g = true ->
+  forall fa thr, exists text,
+    run_shexc fa c thr g = inl text /\ recognise text = true /\ wellformed_closed text = true.
+Proof. intros c g H fa thr. exact (run_wellformed fa c thr g H). Qed.
+Print Assumptions C05_run_wellformed.
+
+(** non-vacuity: the predicate holds on the first witness (namespace ex:
+    declared) and on RunWitness graphs with disjunctions enabled (a choice
+    statement is produced); it rejects the three refuted witnesses (custom
+    namespace, shared local name, local name starting with '-') *)
+Definition c05_rw_cfg : rcfg :=
+  {| r_tau := c_RDF_TYPE; r_targets := None; r_ns := [(Str "http://ex.org/", Str "ex")];
+     r_shapes_ns := c_SHAPES_DEFAULT_NAMESPACE; r_cap := (-1)%Z;
+     r_inverse := true; r_remove_empty := false; r_discard_useless := true; r_keep_less_specific := true;
+     r_all_compliant := true; r_disable_or := false; r_allow_redundant_or := false; r_allow_opt := true;
+     r_disable_exact := false; r_disable_comments := false; r_mode := FMixed |}.
+
+Example C05_input_ok_nonvacuous :
+  c05_input_ok (fst c05_in1) (snd c05_in1) = true /\
+  c05_input_ok c05_rw_cfg g_reftie_1 = true /\ c05_input_ok c05_rw_cfg g_cardtie_1 = true /\
+  c05_input_ok c05_rw_cfg g_split = true /\
+  (exists ns l, run_shapes BAlg c05_rw_cfg (b_ratio 0 1) g_reftie_1 = inl (ns, l) /\
+                existsb (fun sh => existsb (fun s => s_choice s) (sh_stmts sh)) l = true) /\
+  c05_input_ok (fst c05_in2) (snd c05_in2) = false /\
+  c05_input_ok (fst c05_in3) (snd c05_in3) = false /\
+  c05_input_ok (fst c05_in4) (snd c05_in4) = false.
+Proof.
+  split; [vm_compute; reflexivity|]. split; [vm_compute; reflexivity|]. split; [vm_compute; reflexivity|].
+  split; [vm_compute; reflexivity|]. split.
+  - destruct (run_shapes BAlg c05_rw_cfg (b_ratio 0 1) g_reftie_1) as [[ns l]|e] eqn:E; vm_compute in E; [|discriminate E].
+    injection E as <- <-. eexists; eexists. split; [reflexivity | vm_compute; reflexivity].
+  - split; [vm_compute; reflexivity|]. split; vm_compute; reflexivity.
+Qed.
+
+(** the headline applied to the first witness gives the text computed above *)
+Example C05_run_wellformed_applies :
+  exists text, run_shexc BAlg (fst c05_in1) (b_ratio 0 1) (snd c05_in1) = inl text /\
+               recognise text = true /\ wellformed_closed text = true.
+Proof. apply C05_run_wellformed. vm_compute. reflexivity. Qed.
+
+(** binary64, thresholds <= 1, fewer than 2^53 triples: ANY setting of the
+    options.  [c05_input_ok_le1] is [c05_input_ok] without condition (iii) of
+    [valid_input] (disjunctions disabled or empty shapes kept; the free
+    prefix is implied by [full_ns c = Some _]). *)
+Theorem C05_input_ok_le1_unfold : forall c g,
+  (c05_input_ok c g = valid_input c g && c05_core_ok c g) /\
+  (c05_input_ok_le1 c g = typing_okb (r_tau c) g && forallb (sentinel_free (r_tau c)) g && c05_core_ok c g).
+Proof. split; reflexivity. Qed.
+
+Theorem C05_run_wellformed_any_options : forall c thr g,
+  c05_input_ok_le1 c g = true ->
+  wf_frac thr -> fle BAlg thr (fone BAlg) = true -> (N.of_nat (List.length g) < 2 ^ 53)%N ->
+  exists text, run_shexc BAlg c thr g = inl text /\ recognise text = true /\ wellformed_closed text = true.
+Proof. exact run_wellformed_le1. Qed.
+Print Assumptions C05_run_wellformed_any_options.
+
+(** disjunctions enabled AND remove_empty_shapes on: outside [c05_input_ok],
+    inside [c05_input_ok_le1] *)
+Definition c05_rw_cfg2 : rcfg :=
+  {| r_tau := c_RDF_TYPE; r_targets := None; r_ns := [(Str "http://ex.org/", Str "ex")];
+     r_shapes_ns := c_SHAPES_DEFAULT_NAMESPACE; r_cap := (-1)%Z;
+     r_inverse := true; r_remove_empty := true; r_discard_useless := true; r_keep_less_specific := true;
+     r_all_compliant := true; r_disable_or := false; r_allow_redundant_or := false; r_allow_opt := true;
+     r_disable_exact := false; r_disable_comments := false; r_mode := FMixed |}.
+
+Example C05_any_options_nonvacuous :
+  c05_input_ok c05_rw_cfg2 g_reftie_1 = false /\ c05_input_ok_le1 c05_rw_cfg2 g_reftie_1 = true.
+Proof. split; vm_compute; reflexivity. Qed.
+
+(** the sentinel hypothesis of A1 is needed: a literal whose datatype starts
+    with '%' is stored as a type key that reads as a reference *)
+Definition c05_g_sentinel : graph :=
+  [T (c05_iri "http://ex.org/a") c_RDF_TYPE (ON (c05_iri "http://ex.org/C"));
+   T (c05_iri "http://ex.org/a") (Str "http://ex.org/p") (OL (Str "v") (Str "%x"))].
+
+Definition c05_I_sentinel : insts := [(Str "http://ex.org/a", [Str "http://ex.org/C"])].
+
+Lemma C05_profile_refs_sentinel_needed :
+  exists c g I P C ID,
+    track (r_tau c) (mode_of c) (r_cap c) g = inl I /\ profile (pcfg_of c) I g = inl (P, C, ID) /\
+    ~ ClosureLemmas.profile_refs_closed P.
+Proof.
+  destruct (profile (pcfg_of (fst c05_in1)) c05_I_sentinel c05_g_sentinel) as [[[P C] ID]|e] eqn:EP;
+    vm_compute in EP; [|discriminate EP]. injection EP as <- <- <-.
+  eexists (fst c05_in1), c05_g_sentinel, c05_I_sentinel, _, _, _.
+  split; [vm_compute; reflexivity|]. split; [vm_compute; reflexivity|].
+  intros H.
+  match type of H with ClosureLemmas.profile_refs_closed ?P =>
+    match P with (?cl, ?e) :: _ => specialize (H cl e (Str "%x") (or_introl eq_refl)) end end.
+  destruct H as (c' & Hc' & E).
+  - match goal with |- ClosureLemmas.entry_key ?e _ =>
+      match eval cbv [c_direct] in (c_direct e) with
+      | _ :: (?p, ?m) :: _ => match m with (?k, ?cd) :: _ => exists p, m, cd end
+      end end.
+    split; [left; right; left; reflexivity | left; reflexivity].
+  - reflexivity.
+  - destruct Hc' as [<-|[]]. vm_compute in E. discriminate E.
+Qed.
